@@ -73,7 +73,9 @@ Theorem params_guard_digits {F : Type} (O : f32ops F) : (forall x, 0 <= f_to_usi
   2 <= exp_series_guard_digits_gen O p B /\ 0 <= exp_pow_guard_digits_gen O p B /\
   1 <= exp_n_gen O p /\ p < exp_m1_pow_precision_gen O p /\ 10 <= powf_guard_digits_gen O p /\
   p + 2 <= iacoth_work_precision_gen O p (iacoth_guard_digits_gen O p B) /\
-  2 <= ln_guard_digits_gen O p B.
+  2 <= ln_guard_digits_gen O p B /\
+  (forall g, p + g <= powi_work_precision_gen O p g /\ p + g <= powi_neg_precision_gen O p g /\
+             p + g <= powf_work_precision_gen O p g).
 Proof.
   intros H p B n Hp. repeat split.
   - apply powi_guard_digits_ok.
@@ -85,6 +87,9 @@ Proof.
   - apply powf_guard_ok, H.
   - apply iacoth_work_precision_ok, H.
   - apply ln_guard_ok, H.
+  - unfold powi_work_precision_gen. lia.
+  - unfold powi_neg_precision_gen. lia.
+  - unfold powf_work_precision_gen. lia.
 Qed.
 
 Theorem params_work_precisions {F : Type} (O : f32ops F) p sgd pgd md g xd op :
